@@ -4,7 +4,7 @@ from gen_util import *
 import pyref, struct
 
 MODULES = ["WowSrp.Props.C06", "WowSrp.Props.Source.C06", "WowSrp.Props.Source.Structural.C06", "WowSrp.Props.Source.C06Calls", "WowSrp.Props.Source.Shape.C06", "WowSrp.Props.Source.HashesWorld", "WowSrp.Props.Source.ApiWorld", "WowSrp.Props.Source.ApiLinkedWorld"]
-THEOREMS = ["C06_client_proof", "C06_client_proof_wrath", "C06_server_eq", "C06_server_iff", "C06_server_error", "C06_server_eq_wrath", "C06_server_iff_wrath", "C06_server_error_wrath", "C06_pairing", "C06_pairing_wrath", "C06_pairing_text", "C06_changed_bit_refused", "C06_flipped_proof_refused", "C06_changed_field_collision_core", "C06_changed_field_collision", "C06_changed_field_collision_wrath", "C06_swapped_seeds", "C06_swapped_seeds_entry", "C06_seed_accessor", "C06_seed_accessor_wrath", "C06_three_modules", "C06_source_layout", "C06_source_structural_impls", "C06_source_seed_argument_order", "C06_source_shapes", "C06_translated_world_proof", "C06_translated_into_client", "C06_translated_into_server", "C06_translated_wrath_into_client", "C06_translated_wrath_into_server", "C06_translated_world_signatures", "C06_linked_into_server", "C06_linked_into_client"]
+THEOREMS = ["C06_client_proof", "C06_client_proof_wrath", "C06_server_eq", "C06_server_iff", "C06_server_error", "C06_server_eq_wrath", "C06_server_iff_wrath", "C06_server_error_wrath", "C06_pairing", "C06_pairing_wrath", "C06_pairing_text", "C06_changed_bit_refused", "C06_flipped_proof_refused", "C06_changed_field_collision_core", "C06_changed_field_collision", "C06_changed_field_collision_wrath", "C06_swapped_seeds", "C06_swapped_seeds_entry", "C06_seed_accessor", "C06_seed_accessor_wrath", "C06_three_modules", "C06_source_layout", "C06_source_structural_impls", "C06_source_seed_argument_order", "C06_source_shapes", "C06_translated_world_proof", "C06_translated_into_client", "C06_translated_into_server", "C06_translated_wrath_into_client", "C06_translated_wrath_into_server", "C06_translated_world_signatures", "C06_linked_into_server", "C06_linked_into_client", "C06_linked_tbc_into_server", "C06_linked_wrath_into_server"]
 RULE = ("all three expansion modules; seeds injected through the RNG shim (0, 0xFFFFFFFF, equal, swapped, random); client proof and server "
         "decision recomputed independently; client->server pairing both ways; single-bit changes of the proof, of the session key, of the "
         "name, of either seed; on success the returned header crypto is probed (16 bytes each direction) and compared with the model. "
